@@ -216,6 +216,38 @@ def gen_random(tier, seed):
     return cases
 
 
+def gen_large(tier, seed):
+    """Frames around every size the buffer treats specially (its 4096-byte minimum read, 64 KiB,
+    frame_max 131072, 1 MiB) followed at once by small frames: the read that completes a large frame
+    may bring the beginning - or all - of what follows (the reserve is max(4096, frame size))."""
+    rng = Rng(seed + 6600)
+    small = [amqp.heartbeat(), amqp.basic_ack(1, 5, True), amqp.body(2, b"ab"), amqp.basic_get_empty(1)]
+    sizes = [4080, 4088, 4089, 5000, 16384, 65528, 65529, 65536, 70000, 131064, 131072, 200000] + ([] if tier == "quick" else [2 ** 20, 2 ** 20 + 1, 3000000])
+    cases = []
+    for i, sz in enumerate(sizes):
+        big = amqp.body(1, bytes((j * 11 + i) % 251 for j in range(sz)))
+        for variant in range(4 if tier == "quick" else 10):
+            frs = [rng.choice(small) for _ in range(rng.randint(0, 2))] + [big] + [rng.choice(small) for _ in range(rng.randint(1, 4))]
+            if variant % 4 == 3:
+                frs.append(amqp.body(3, bytes(rng.randint(5000, 70000))))
+                frs.append(rng.choice(small))
+            vs = verdicts(frs)
+            total = sum(len(f) for f in frs)
+            pre = sum(len(f) for f in frs[:frs.index(big)])
+            end = pre + len(big)
+            style = variant % 4
+            if style == 0:
+                cuts = []                                   # everything readable at once
+            elif style == 1:
+                cuts = [pre + 7, end - 1]                   # header, body, then the last byte with what follows
+            elif style == 2:
+                cuts = [pre + rng.randint(1, 4095), end + rng.randint(1, max(1, total - end - 1))]
+            else:
+                cuts = sorted(rng.randint(1, total - 1) for _ in range(3))
+            cases.append(make_case("L%d_%d" % (sz, variant), frs, vs, cuts, rng, wb_prob=rng.choice([0.0, 0.0, 0.5]), one_call=(variant % 2 == 0)))
+    return cases
+
+
 def gen_exhaustive(tier, seed):
     """Every pair of cut positions for small streams (each piece in its own read call, and all in one)."""
     rng = Rng(seed + 606)
@@ -242,6 +274,8 @@ def gen_exhaustive(tier, seed):
 
 def suites(tier, seed):
     return [
+        Suite("framebuf-large", "framebuf", lambda: gen_large(tier, seed), monitor=monitor, nontrivial=nontrivial, shrink=False, shards=4,
+              rule="one body frame of 4080 ... 200000 bytes (thorough: up to 3 MB) between small frames, everything readable at once or cut just after the header / just before the last byte / at random: every frame handed on once, in order, as soon as its last byte has arrived"),
         Suite("framebuf-random", "framebuf", lambda: gen_random(tier, seed), monitor=monitor, nontrivial=nontrivial,
               rule="streams of 1-8 real AMQP frames (all 4 types, ~60 method shapes, bodies 0..20000 B) with 25% one malformed frame (bad end byte, unknown type, garbage/truncated payload); cuts: random / fixed stride incl. 4095-4097 / around boundaries and the size field / none; would-block density 0/0.3/0.9; EOF, read error or empty read at the end; 10% handler failure"),
         Suite("framebuf-exhaustive", "framebuf", lambda: gen_exhaustive(tier, seed), monitor=monitor, nontrivial=nontrivial, exhaustive=True,
